@@ -17,18 +17,30 @@ def cfgOf : Nat → Option Cfg
 /-- the harness' mock link layer starts with the random address c0:ff:ee:11:22:33 -/
 def defaultLocal : Nat := 2 * 0xc0ffee112233 + 1
 
-def schedStr : Option (Nat × Nat) → String
-  | none => "-"
-  | some (c, d) => s!"s {c} {d}"
+/-- PDU type code of the advertising PDU `fill_advertising_data( selected_ )` builds:
+    ADV_IND 0, ADV_DIRECT_IND 1, ADV_NONCONN_IND 2, ADV_SCAN_IND 6 (the harnesses read it from the PDU
+    handed to the radio) -/
+def pduTypeCode (s : St) : Nat :=
+  match s.cfg.types[s.selected]? with
+  | some .undirected => 0
+  | some .directed => 1
+  | some .nonconn => 2
+  | some .scannable => 6
+  | none => 15
 
-def outStr : Out → String
+/-- `s` = the state after the step: the PDU that was scheduled is of the type `selected_` names -/
+def schedStr (s : St) : Option (Nat × Nat) → String
+  | none => "-"
+  | some (c, d) => s!"s {c} {d} t{pduTypeCode s}"
+
+def outStr (st : St) : Out → String
   | .ok => "ok"
   | .bad => "bad-op"
   | .ub => "ub"
   | .bool b => boolStr b
-  | .sched s => schedStr s
-  | .recv none s => "rej " ++ schedStr s
-  | .recv (some a) s => s!"acc {a} " ++ schedStr s
+  | .sched s => schedStr st s
+  | .recv none s => "rej " ++ schedStr st s
+  | .recv (some a) s => s!"acc {a} " ++ schedStr st s
   | .scan v f => s!"v={boolStr v} f={boolStr f}"
 
 /-- addresses are cut to 48 bits + flag as `make_addr` of the harness does -/
@@ -70,7 +82,7 @@ def drvStep (s : St) (ws : List String) : St × String :=
       | some bs => if bs.length < 2 ∨ bs.length > 36 then (s, "bad-op") else (s, "n=" ++ boolStr (nrfAnswers s (pad36 bs)))
       | none => (s, "bad-op")
   | _ => match parseOp ws with
-      | some op => let (s', o) := step s op; (s', outStr o)
+      | some op => let (s', o) := step s op; (s', outStr s' o)
       | none => (s, "bad-op")
 
 def main : IO Unit :=
